@@ -6,7 +6,7 @@ PROP_FILE = 'Properties/C20.v'
 RULE = ('random register schedules (power, triggers of all four channels, NR50/NR51 routing, volumes, envelopes, sweep, '
         'wave RAM) over emulated time: one run of 1.06 emulated seconds across the once-per-second wrap of the sample '
         'clock, ~40 schedules of 10^4-10^5 machine cycles, runs starting just before the wrap (hook), runs with '
-        'power off, and with no / only one output attached; the number of pairs is counted per machine cycle '
+        'power off, power cycles followed by re-triggers before NR50/NR51 are rewritten, and with no / only one output attached; the number of pairs is counted per machine cycle '
         '(checksum over (cycle, left, right)) and all sample values are compared as exact integers '
         'round(sample*6400); paired runs differ only in a channel not routed to the left (right) side and must give '
         'identical left (right) samples; runs with NR51 = 0 must give zeros.  A case is non-trivial when it emitted '
@@ -113,6 +113,21 @@ def generate(rng, tier):
     for att in (0, 2, 3):
         cases.append(('att%d' % att, ['apu.new %d' % att] + setup(rng) + [cyc(5000), 'apu.samples']))
     cases.append(('off', setup(rng) + [cyc(500), w(NR52, 0x00), cyc(5000), w(NR52, 0x80), cyc(500), 'apu.samples']))
+    # 4b. power cycle: everything incl. NR50/NR51 is cleared, so re-triggered channels stay silent until the
+    #     routing (and volume) registers are written again
+    def retrigger():
+        return [w(NR12, 0xF0), w(NR13, 0x00), w(NR14, 0x87), w(NR22, 0xF0), w(NR24, 0x87),
+                w(NR30, 0x80), w(NR32, 0x20), w(NR34, 0x87), w(NR42, 0xF0), w(NR44, 0x80)]
+    cases.append(('xc_none', setup(rng, nr51=0xFF) + [cyc(500), w(NR52, 0x00), cyc(10), w(NR52, 0x80)] + retrigger() +
+                  [cyc(3000), 'apu.samples']))
+    cases.append(('xc_vol', setup(rng, nr51=0xFF) + [cyc(500), w(NR52, 0x00), w(NR52, 0x80)] + retrigger() +
+                  [w(NR50, 0x77), cyc(3000), 'apu.samples']))
+    cases.append(('xc_route', setup(rng, nr51=0xFF) + [cyc(500), w(NR52, 0x00), w(NR52, 0x80)] + retrigger() +
+                  [w(NR51, 0x12), cyc(3000), 'apu.samples', w(NR50, 0x53), cyc(3000), 'apu.samples']))
+    for k in range(4 if tier == 'quick' else 40):
+        cases.append(('xcr%d' % k, setup(rng) + [cyc(rng.randrange(1, 3000)), w(NR52, 0x00), cyc(rng.randrange(0, 50)), w(NR52, 0x80)] +
+                      retrigger() + ([w(NR50, rng.randrange(256))] if k % 2 else []) +
+                      [cyc(2000), 'apu.samples', w(NR51, rng.randrange(256)), w(NR50, rng.randrange(256)), cyc(2000), 'apu.samples']))
     # 5. NR51 = 0: silence
     cases.append(('mute', setup(rng, nr51=0) + [cyc(20000), 'apu.samples']))
     # 6. paired runs: channel ch not routed to one side, differs between A and B
@@ -204,6 +219,10 @@ def extra(check, impl_cases, model_cases, cases):
         if cid == 'off':
             if nl != count(4 * 500) + (count(4 * 6000) - count(4 * 5500)):
                 bad(cid, lines, '%d pairs around a power-off interval' % nl)
+        if cid in ('xc_none', 'xc_vol'):
+            pre = count(4 * 500)
+            if any(a or b for a, b in pairs[pre:]):
+                bad(cid, lines, 'non-zero sample after an APU power cycle although NR50/NR51 were not both rewritten')
         if cid == 'mute' and any(a or b for a, b in pairs):
             bad(cid, lines, 'non-zero sample with NR51 = 0')
         if cid.startswith('p') and 'A_' in cid:
